@@ -13,7 +13,9 @@
 (***************************************************************************)
 EXTENDS Naturals, FiniteSets, Sequences
 
-Sers == {"serpent", "json", "marshal", "msgpack"}
+\* serpentb: the serpent serializer with the configuration item SERPENT_BYTES_REPR switched on (bytes are written as literals)
+Sers == {"serpent", "serpentb", "json", "marshal", "msgpack"}
+Serp(s) == s \in {"serpent", "serpentb"}
 Leaves == {"none", "bool", "int", "bigint", "float", "inf", "nan", "str", "bytes", "bytearray", "complex", "uuid",
            "decimal", "date", "datetime"}
 CoreLeaves == {"none", "bool", "int", "bigint", "float", "inf", "nan", "str"}
@@ -28,21 +30,25 @@ LeafMap(s, k, top) ==
     CASE k \in CoreLeaves -> k
       [] k \in {"b64dict", "err"} -> k
       [] s = "serpent" -> (CASE k \in {"bytes", "bytearray"} -> "b64dict" [] k = "complex" -> "complex" [] OTHER -> "str")
+      [] s = "serpentb" -> (CASE k \in {"bytes", "bytearray"} -> "bytes" [] k = "complex" -> "complex" [] OTHER -> "str")
       [] s = "json"    -> (CASE k \in {"bytes", "bytearray", "complex"} -> "err" [] OTHER -> "str")
       [] s = "marshal" -> (CASE k \in {"bytes", "bytearray"} -> (IF k = "bytearray" /\ ~top THEN "bytes" ELSE "bytes")
                              [] k = "complex" -> "complex" [] k = "uuid" -> (IF top THEN "str" ELSE "err") [] OTHER -> "err")
       [] s = "msgpack" -> (CASE k \in {"bytes", "bytearray"} -> "bytes" [] k \in {"complex", "date", "datetime"} -> k [] OTHER -> "str")
 ContMap(s, k, empty) ==
-    CASE s = "serpent" -> (CASE k \in {"set", "frozenset"} -> (IF empty THEN "tuple" ELSE "set") [] OTHER -> k)
+    CASE Serp(s) -> (CASE k \in {"set", "frozenset"} -> (IF empty THEN "tuple" ELSE "set") [] OTHER -> k)
       [] s = "json"    -> (CASE k \in {"tuple", "set"} -> "list" [] k = "frozenset" -> "err" [] k = "dictint" -> "dictstr" [] OTHER -> k)
       [] s = "marshal" -> k
       [] s = "msgpack" -> (CASE k \in {"tuple", "set"} -> "list" [] k \in {"frozenset", "dictint"} -> "err" [] OTHER -> k)
 \* serpent writes sets as literals: their members must be primitive hashable values
-RECURSIVE SerpentHashable(_)
-SerpentHashable(y) == /\ y.k \notin {"bytes", "bytearray", "nan", "list", "set", "frozenset", "dictstr", "dictint"}
-                      /\ (y.k = "tuple" => \A z \in y.c : SerpentHashable(z))
-SerpentSetMember(x) == \/ x.k \in {"bool", "int", "bigint", "float", "inf", "str", "complex", "decimal"}
-                       \/ x.k = "tuple" /\ \A y \in x.c : SerpentHashable(y)
+\* (with bytes written as literals a bytes value is such a member too; a bytearray cannot be in a set in the first place)
+RECURSIVE SerpentHashable(_, _)
+SerpentHashable(s, y) == /\ y.k \notin {"bytearray", "nan", "list", "set", "frozenset", "dictstr", "dictint"}
+                         /\ (y.k = "bytes" => s = "serpentb")
+                         /\ (y.k = "tuple" => \A z \in y.c : SerpentHashable(s, z))
+SerpentSetMember(s, x) == \/ x.k \in {"bool", "int", "bigint", "float", "inf", "str", "complex", "decimal"}
+                          \/ x.k = "bytes" /\ s = "serpentb"
+                          \/ x.k = "tuple" /\ \A y \in x.c : SerpentHashable(s, y)
 
 \* lvl 0 is the argument / result itself; marshal converts it, and the items of a list at that level, and nothing deeper
 RECURSIVE MapAt(_, _, _, _)
@@ -51,7 +57,7 @@ MapAt(s, v, conv, lvl) ==
     ELSE LET kids == {MapAt(s, x, conv /\ lvl = 0 /\ v.k = "list", lvl + 1) : x \in v.c}
              k2 == ContMap(s, v.k, v.c = {}) IN
          IF k2 = "err" \/ Err \in kids THEN Err
-         ELSE IF s = "serpent" /\ v.k \in {"set", "frozenset"} /\ \E x \in v.c : ~SerpentSetMember(x) THEN Err
+         ELSE IF Serp(s) /\ v.k \in {"set", "frozenset"} /\ \E x \in v.c : ~SerpentSetMember(s, x) THEN Err
          ELSE [k |-> k2, c |-> kids]
 Map(s, v) == MapAt(s, v, TRUE, 0)
 
